@@ -106,9 +106,9 @@ class Lexer:
         self.dot_property_pattern = rf"\.(?P<G_PROP>{self.key_pattern})"
 
         self.slice_list_pattern = (
-            r"(?P<G_LSLICE_START>\-?\d*)\s*"
-            r":\s*(?P<G_LSLICE_STOP>\-?\d*)\s*"
-            r"(?::\s*(?P<G_LSLICE_STEP>\-?\d*))?"
+            r"(?P<G_LSLICE_START>(?:\-?\d+)?)\s*"
+            r":\s*(?P<G_LSLICE_STOP>(?:\-?\d+)?)\s*"
+            r"(?::\s*(?P<G_LSLICE_STEP>(?:\-?\d+)?))?"
         )
 
         # /pattern/ or /pattern/flags
